@@ -8,7 +8,7 @@ import core
 import gen
 
 PID = 'C12'
-MODULES = ['FFVerif.Proofs.C12', 'FFVerif.Proofs.C12Chain', 'FFVerif.Proofs.C20Align', 'FFVerif.Proofs.C12Basis', 'FFVerif.Proofs.VecGen']
+MODULES = ['FFVerif.Proofs.C12', 'FFVerif.Proofs.C12Chain', 'FFVerif.Proofs.C20Align', 'FFVerif.Proofs.C12Basis', 'FFVerif.Proofs.VecGen', 'FFVerif.Proofs.C12Pipe']
 
 
 def fail(res, clause, case, out, sig=None):
@@ -199,6 +199,65 @@ def explore(res, rng, n):
                      sig=f'C12:flat-not-form:{name}')
 
 
+def sorm_model_stream(res, rng, k):
+    """the executable Lean model of the curvature extraction (Model/SormPipe.lean: gradient pulled back to U space, alignment vector,
+    argmax column, Gram-Schmidt basis, U-space Hessian with the curvature of the marginal maps, conjugation, leading block) against
+    `mainCurvaturesAtDesignPoint`, through the eigenvalues of the block, on random problems with normal / lognormal marginals, random
+    correlation and linear / quadratic limit states (exact gradient and Hessian of g are handed to the model; the implementation
+    differences g numerically and finds the design point with SLSQP, hence the tolerance)"""
+    core.import_impl()
+    import numpy as np
+    from scipy import stats
+    from ffpack import rpm
+    from ffpack.rrm import secondOrderReliabilityMethod as sorm
+    from formmodel import fcsv, unbits, gen_problem, gen_limit_state
+    reqs, meta = [], []
+    for _ in range(k):
+        d, kinds, p1, p2, dists, R = gen_problem(rng, np, stats, dmax=4)
+        if d < 2:
+            continue
+        mean = np.array([float(ds.mean()) for ds in dists])
+        sd = np.array([float(ds.std()) for ds in dists])
+        shape, c0, b, Q = gen_limit_state(rng, np, d, mean, sd)
+        g = lambda X, c0=c0, b=b, Q=Q: c0 + float(b @ np.array(X, dtype=float)) + float(np.array(X, dtype=float) @ Q @ np.array(X, dtype=float))
+        dg = [(lambda X, kk=kk, b=b, Q=Q: float(b[kk] + ((Q + Q.T) @ np.array(X, dtype=float))[kk])) for kk in range(d)]
+        case = {'kinds': kinds, 'p1': p1, 'p2': p2, 'corr': R.tolist(), 'c0': c0, 'b': b.tolist(), 'Q': Q.tolist()}
+        res.evaluations += 1
+        try:
+            ks, beta, u, x = sorm.mainCurvaturesAtDesignPoint(d, g, dg if rng.random() < 0.7 else None, dists, R.tolist())
+            nat = rpm.NatafTransformation(dists, R.tolist())
+        except ValueError as e:
+            if 'converge' in str(e):
+                res.stat('sorm_model_design_point_not_found')
+                continue
+            fail(res, 'curvature extraction raised on a smooth problem: ' + repr(e)[:100], case, None)
+            continue
+        except Exception as e:  # noqa
+            fail(res, 'curvature extraction raised on a smooth problem: ' + repr(e)[:100], case, None)
+            continue
+        x = np.array(x, dtype=float)
+        # outside |z| <= 6 the implementation's route through cdf / ppf loses the upper tail (DESIGN 7)
+        zs = [((xx - a1) / a2 if kd == 'n' else (math.log(xx) - a1) / a2) for xx, kd, a1, a2 in zip(x, kinds, p1, p2) if kd == 'n' or xx > 0]
+        if len(zs) < d or max(abs(z) for z in zs) > 6:
+            res.stat('sorm_model_design_point_in_the_far_tail')
+            continue
+        res.stat('sorm_model_' + shape + ('_lognormal' if 'l' in kinds else '_normal'))
+        reqs.append(' '.join(['sormpipe', str(d), ','.join(kinds), fcsv(p1), fcsv(p2), fcsv(np.array(nat.rhoZ).flatten()), fcsv(x),
+                              fcsv(b + (Q + Q.T) @ x), fcsv((Q + Q.T).flatten())]))
+        meta.append((case, sorted(float(np.real(v)) for v in ks), d))
+    for (case, ks, d), a in zip(meta, core.driver_batch(reqs)):
+        res.traces += 1
+        try:
+            _gn, blk = a.split(' ')
+            M = np.array(unbits(blk)).reshape(d - 1, d - 1)
+            ev = sorted(float(v) for v in np.linalg.eigvalsh((M + M.T) / 2))
+            ok = float(np.max(np.abs(M - M.T))) <= 1e-9 * (1 + float(np.max(np.abs(M)))) and all(abs(p - q) <= 2e-5 * (1 + max(abs(v) for v in ks)) for p, q in zip(ev, ks))
+        except Exception:  # noqa
+            ev, ok = a[:100], False
+        if not ok:
+            res.disagreements.append({'what': 'main curvatures vs the eigenvalues of the model block', 'input': case, 'impl': ks, 'model': ev})
+
+
 def run(tier, seed):
     res = core.Result(PID, tier, seed)
     res.rule = ('closing formulas on random (beta, curvature vector) incl. all-zero and negative curvatures; rotated paraboloids in standard '
@@ -206,6 +265,7 @@ def run(tier, seed):
     import translate_vec
     translate_vec.regenerate(res)      # Gen/VecFormulas.lean from the current source (numpy vector expressions)
     core.prove(res, PID, MODULES, clean=(tier == 'thorough'))
+    sorm_model_stream(res, random.Random(seed + 9), 25 if tier == 'quick' else 600)
     n = 6 if tier == 'quick' else 120
     explore(res, random.Random(seed), n)
     res.disagreements_checked = res.traces
